@@ -2,7 +2,7 @@
 # usage: tools/store_seed.sh <id> <validate log>   copies /tmp/seed/<id>/_seed into /verif/seeded/<id> with the validation record
 id=$1; log=$2
 head=$(git -C /repo rev-parse --short HEAD)
-mkdir -p /verif/seeded/$id; cp /tmp/seed/$id/_seed/patch.diff /verif/seeded/$id/; cp /tmp/seed/$id/_seed/demo.* /verif/seeded/$id/
+mkdir -p /verif/seeded/$id; cp /tmp/seed/$id/_seed/patch.diff /verif/seeded/$id/; for f in /tmp/seed/$id/_seed/*; do case $(basename $f) in meta.json|*.log|*.out) ;; *) [ -f $f ] && cp $f /verif/seeded/$id/;; esac; done
 res=$(grep "^id=$id " $log | tail -1 | sed "s/^id=$id //")
 python3 - "$id" "$head" "$res" <<'PY'
 import json,sys
